@@ -2,6 +2,7 @@
 //! prints canonical lines that the driver compares with the Lean model.
 mod castfmt;
 mod csvdec;
+mod rledec;
 mod rng;
 mod sortkey;
 mod sqlrun;
@@ -18,6 +19,7 @@ fn main() {
         "sortkey" => sortkey::main(rest),
         "cast" => castfmt::main(rest),
         "csv" => csvdec::main(rest),
+        "rle" => rledec::main(rest),
         other => {
             eprintln!("unknown component {other}");
             2
